@@ -293,6 +293,20 @@ func (t *Transaction) Insert(op *ovsdb.Operation) (ovsdb.OperationResult, *updat
 		return ovsdb.ResultFromError(err), nil
 	}
 
+	// the uuid must not be in use by a row of the table
+	if _, deleted := t.DeletedRows[op.UUID]; !deleted {
+		exists := false
+		if tc := t.Cache.Table(op.Table); tc != nil && tc.HasRow(op.UUID) {
+			exists = true
+		} else if row, err := t.Database.Get(t.DbName, op.Table, op.UUID); err == nil && row != nil {
+			exists = true
+		}
+		if exists {
+			err := ovsdb.NewConstraintViolation(fmt.Sprintf("a row with uuid %s already exists in table %s", op.UUID, op.Table))
+			return ovsdb.ResultFromError(err), nil
+		}
+	}
+
 	update := updates.ModelUpdates{}
 	err := update.AddOperation(t.Model, op.Table, op.UUID, nil, op)
 	if err != nil {
